@@ -67,6 +67,9 @@ Patterns(len) ==
   ELSE {Zeros(len), Ones(len)}
        \cup {[i \in 1..len |-> IF i = p THEN 1 ELSE 0] : p \in {1, 2, (len + 1) \div 2, len - 1, len} \cap (1..len)}
        \cup {[i \in 1..len |-> IF i = p THEN 0 ELSE 1] : p \in {1, (len + 1) \div 2, len} \cap (1..len)}
+       \cup {[i \in 1..len |-> IF i = p \/ i = q THEN 1 ELSE 0] :
+                  p \in {1, 2} \cap (1..len), q \in {len - 2, len - 1, len} \cap (1..len)}
+       \cup {[i \in 1..len |-> IF i = 1 \/ i >= len - 1 THEN 1 ELSE 0]}
        \cup {[i \in 1..len |-> i % 2], [i \in 1..len |-> (i + 1) % 2]}
        \cup {[i \in 1..len |-> RandBit(len, j, i)] : j \in 1..NRand}
 
